@@ -53,10 +53,22 @@ func (h *hooked) Check(ent Entry, ce *CheckedEntry) *CheckedEntry {
 	// Let the wrapped Core decide whether to log this message or not. This
 	// also gives the downstream a chance to register itself directly with the
 	// CheckedEntry.
-	if downstream := h.Core.Check(ent, ce); downstream != nil {
+	//
+	// The hooks run only if the wrapped Core accepted the entry: a CheckedEntry
+	// that is non-nil merely because an earlier Core (for example another
+	// branch of a Tee) registered itself doesn't count.
+	before := 0
+	if ce != nil {
+		before = len(ce.cores)
+	}
+	downstream := h.Core.Check(ent, ce)
+	if downstream == nil {
+		return ce
+	}
+	if len(downstream.cores) > before {
 		return downstream.AddCore(ent, h)
 	}
-	return ce
+	return downstream
 }
 
 func (h *hooked) With(fields []Field) Core {
